@@ -71,6 +71,18 @@ CHECKS = {
         design_ref="DESIGN.md §5 C10",
         note="Trusted: TLC, term conversion. One-directional (only non-empty results are constrained), as the property states.",
     ),
+    "C08": dict(
+        category="model_checking",
+        technique="instantiation contract as TLA+ clauses (HTypeOps.InstBad: bounds via capture approximation, requested assignments, "
+                  "projection permission from choices/variance/switches/bound mentions); TLC-enumerated declarations, requests, choice maps and "
+                  "switch settings; real helpers run under an exhaustive choice oracle; every outcome validated by TLC",
+        text="38 400 cases (declarations with 1-3 parameters incl. chains T3:T2:T1 and Foo<T1> bounds x variances x all partial "
+             "pre-assignments from a 7-term pool x 5 variance-choice settings x 4 switch settings x class/function) in the thorough tier, 3 000 "
+             "sampled in quick; each executed over every outcome of the helper's random choices up to a leaf budget.",
+        design_ref="DESIGN.md §5 C08",
+        note="Trusted: TLC, term conversion, choice oracle. When a request targets a parameter tied to another by a bound, only the clauses that do "
+             "not depend on the request are judged (the statement leaves the rewriting of the other assignments open).",
+    ),
 }
 
 NOT_YET = "check not built yet (work in progress in this session; see DESIGN.md §10 for the order of work)"
